@@ -183,6 +183,12 @@ class _Canon(ast.NodeTransformer):
         # a field and a row of a structured array commute: x[i]['f'] == x['f'][i] (field first)
         if isinstance(sl, ast.Constant) and isinstance(sl.value, str) and isinstance(v, ast.Subscript) and isinstance(v.value, (ast.Name, ast.Attribute)) and not isinstance(v.slice, (ast.Tuple, ast.List)) and not (isinstance(v.slice, ast.Constant) and isinstance(v.slice.value, str)):
             return ast.Subscript(value=ast.Subscript(value=v.value, slice=sl, ctx=ast.Load()), slice=v.slice, ctx=node.ctx)
+        # a[:len(a)] == a[:a.size] == a (one-dimensional)
+        if isinstance(sl, ast.Slice) and sl.lower is None and sl.step is None and sl.upper is not None and isinstance(v, (ast.Name, ast.Attribute)):
+            up = sl.upper
+            vt = ast.unparse(v)
+            if (isinstance(up, ast.Call) and isinstance(up.func, ast.Name) and up.func.id == "len" and len(up.args) == 1 and ast.unparse(up.args[0]) == vt) or (isinstance(up, ast.Attribute) and up.attr == "size" and ast.unparse(up.value) == vt):
+                return v
         # arange(N)[:n] == arange(n) and arange(N)[n:] == arange(n, N)
         if isinstance(v, ast.Call) and isinstance(v.func, ast.Name) and v.func.id == "arange" and len(v.args) == 1 and not v.keywords and isinstance(sl, ast.Slice) and sl.step is None:
             if sl.lower is None and sl.upper is not None:
